@@ -179,6 +179,44 @@ def r01_1(ctx):
     feeder_state_is_per_sequence(ctx, 'R01.1')
 
 
+def feeder_serves_while_running(ctx, rule):
+    """TaskHandler.body: (a) the thread stops feeding (leaves the loop over the task queue) only when
+    the pool state is no longer RUN, the queue sentinel arrived or the pipe broke -- never because one
+    task could not be sent; (b) the state is re-checked before *every* task is put, so that
+    terminate() is noticed in the middle of a long sequence."""
+    ctx.rule(rule, 'the task feeder stops only on state change / sentinel / broken pipe, and re-checks the '
+                   'state before every put', floor=2)
+    m = ctx.model
+    fi = m.func('pool:TaskHandler.body')
+    cfg = fi.cfg
+    fors = sorted(cfg.where(lambda n: n.kind == 'for'), key=lambda n: n.stmt.lineno)
+    q.need(len(fors) >= 2, 'TaskHandler.body: outer/inner feeding loops not found')
+    outer, inner = fors[0], fors[1]
+    brk = [n for n in cfg.where(lambda n: isinstance(n.ast, ast.Break)) if q.inside(fi, n, inner.stmt.body)]
+    bad = []
+    for b in brk:
+        in_io = any(part == 'handler' and h.type is not None and
+                    set(x.strip() for x in ast.unparse(h.type).strip('()').split(',')) <= {'IOError', 'OSError', 'EOFError',
+                                                                                        'BrokenPipeError'}
+                    for (tr, part, h) in q.enclosing_trys(fi, b.ast))
+        on_state = q.has_guard(fi, b, 'self._state', True) or q.has_guard(fi, b, q.eq_text('self._state', 'RUN'), False)
+        if not (in_io or on_state):
+            bad.append(b)
+    ctx.ob(rule, 'TaskHandler.body:feeding-stops-only-on-state-change-or-broken-pipe', not bad, fi,
+           bad[0] if bad else inner,
+           'every break out of the feeding loop is under `self._state` or in an I/O-error handler' if not bad else
+           'a failure to send one task ends the feeder thread while the pool still reports RUN: every later job '
+           'is accepted and never runs')
+    puts = [n for (n, c) in q.calls(fi, 'self.put') if q.inside(fi, n, inner.stmt.body)]
+    tests = [t for t in cfg.where(lambda t: t.kind == 'test' and q.inside(fi, t, inner.stmt.body))
+             if q.norm_guard(fi, t.ast, True)[0] in ('self._state', q.eq_text('self._state', 'RUN'))]
+    ok = bool(puts) and bool(tests) and all(cfg.must_pass([inner], [p], tests, skip_labels=('x',))[0] for p in puts)
+    ctx.ob(rule, 'TaskHandler.body:state-rechecked-before-every-put', ok, fi, puts[0] if puts else inner,
+           'within each iteration of the feeding loop the state test precedes put(task)' if ok else
+           'the state is not looked at between two puts of one sequence: terminate() during a long map/imap '
+           'waits for a feeder that keeps blocking in put()')
+
+
 def feeder_state_is_per_sequence(ctx, rule):
     """TaskHandler.body: the variables the failure handlers read (current task, current
     index) are reset for every task sequence, so that a failure while feeding job B can
@@ -503,11 +541,20 @@ def run(ctx):
     from .c04 import r04_4, r04_5
     r04_4(ctx)
     r04_5(ctx)
+    from .c03 import r03_5
+    r03_5(ctx)
+    feeder_serves_while_running(ctx, 'R01.7')
     ctx.assume('messages on one pipe are delivered in order and not lost by the kernel')
 
 
 _P = 'billiard/pool.py'
 MUTANTS = [
+    ('feeder-ends-after-one-bad-task', _P, "                            cache[job]._set(ind, (False, ExceptionInfo()))\n                        except KeyError:\n                            pass\n",
+     "                            cache[job]._set(ind, (False, ExceptionInfo()))\n                        except KeyError:\n                            pass\n                        break\n", 'R01.7'),
+    ('feeder-state-checked-once-per-sequence', _P, "                for i, task in enumerate(taskseq):\n                    if self._state:\n                        debug('task handler found thread._state != RUN')\n                        break\n                    try:\n",
+     "                if self._state:\n                    break\n                for i, task in enumerate(taskseq):\n                    try:\n", 'R01.7'),
+    ('accept-callback-before-bookkeeping', _P, "            self._accepted = True\n            self._time_accepted = time_accepted\n            self._worker_pid = pid\n",
+     "            if self._accept_callback:\n                self._accept_callback(pid, time_accepted)\n            self._accepted = True\n            self._time_accepted = time_accepted\n            self._worker_pid = pid\n", 'R03.5'),
     ('send-failure-reads-tag', _P, "                        job, ind = task[1][:2]\n", "                        job, ind = task[:2]\n", 'R01.1'),
     ('iter-failure-reads-tag', _P, "job, ind = task[1][:2] if task else (0, 0)", "job, ind = task[:2] if task else (0, 0)", 'R01.1'),
     ('send-failure-swapped', _P, "                        job, ind = task[1][:2]\n", "                        ind, job = task[1][:2]\n", 'R01.1'),
@@ -550,6 +597,10 @@ MUTANTS = [
     ('swallow-systemexit', _P, "                        if (isinstance(exc, SystemExit) and\n                                _should_have_exited[0]):\n", "                        if False:\n", 'R08.1'),
 ]
 TWINS = [
+    ('feeder-state-test-spelled-with-RUN', _P, "                    if self._state:\n                        debug('task handler found thread._state != RUN')\n",
+     "                    if self._state != RUN:\n                        debug('task handler found thread._state != RUN')\n"),
+    ('feeder-broken-pipe-handler-OSError', _P, "                    except IOError:\n                        debug('could not put task on queue')\n",
+     "                    except OSError:\n                        debug('could not put task on queue')\n"),
     ('ready-spelling', _P, "            if self._event.is_set():\n                # already resolved: the outcome is final, a late or",
      "            if self.ready():\n                # already resolved: the outcome is final, a late or"),
     ('payload-local', _P, "                        job, ind = task[1][:2]\n", "                        payload = task[1]\n                        job, ind = payload[:2]\n"),
